@@ -728,6 +728,20 @@ def older_sampler_layouts(res, rng, n):
         for v in scratch.violations:
             if ":legacy-conversion:" in v["key"] or ":legacy-unloadable:" in v["key"]:
                 res.violation(v["key"].replace("C16:", "C04:older-layout:", 1), v["what"], v.get("case"))
+        # ... and instruments as other writers store them (a chunk left out, undocumented flag bits, a slot without waveform block)
+        scratch = Result()
+        src = chunks
+        if k % 2:
+            try:
+                import rv.api as api
+                gc = workload.module_case(1, 778000 + k, "quick", "Sampler", ctx="synth")
+                src = [(c_[0], c_[1]) for c_ in iffparse.parse(api.Synth(gc.obj).read())]
+            except Exception:
+                src = chunks
+        c16.foreign_variants(scratch, src, rng, k, generated=src is not chunks)
+        res.count("foreign_instrument_files")
+        for v in scratch.violations:
+            res.violation(v["key"].replace("C16:", "C04:", 1), v["what"], v.get("case"))
 
 
 def run_shard(spec_, res):
